@@ -50,13 +50,14 @@ impl Check for C20 {
             let s = inert_item(r);
             let n = s.chars().count();
             let mut cuts = vec![];
-            match r.below(4) {
+            match r.below(5) {
                 0 => {}
                 1 => {
                     for i in 1..n {
                         cuts.push(i);
                     }
                 }
+                2 => cuts.push(0), // per-character entry point Vt::feed()
                 _ => {
                     for i in 1..n {
                         if r.chance(1, 3) {
@@ -134,7 +135,9 @@ impl Check for C20 {
                 let rep = live.apply(e);
                 items += 1;
                 st.bump(item_kind(s));
-                if !cuts.is_empty() {
+                if cuts.contains(&0) {
+                    st.bump("item_through_feed_char");
+                } else if !cuts.is_empty() {
                     st.bump("item_cut_inside");
                 }
                 d.str(s);
@@ -177,13 +180,13 @@ impl Check for C20 {
     }
     fn meta(&self) -> Meta {
         Meta {
-            rule: "an in-domain prior history, then 1-3 inert items (OSC/DCS/SOS/PM/APC x 7-/8-bit introducer x ST/ESC \\/BEL x payload classes; CSI with unimplemented finals, private markers < = > ?, intermediates, ignore paths; unimplemented ESC sequences; unassigned C0/C1), each delivered by feed_str pieces cut at arbitrary positions inside the item; twin = the same instance before: view, lines(), cursor, cursor-key mode, dump() identical, every Changes.lines of the item's calls empty, no Function dispatched, parser back in Ground; non-trivial = at least one item judged; distinct = (items, final screen)",
+            rule: "an in-domain prior history, then 1-3 inert items (OSC/DCS/SOS/PM/APC x 7-/8-bit introducer x ST/ESC \\/BEL x payload classes; CSI with unimplemented finals, private markers < = > ?, intermediates, ignore paths; unimplemented ESC sequences; unassigned C0/C1), each delivered by feed_str pieces cut at arbitrary positions inside the item or character by character through Vt::feed(); twin = the same instance before: view, lines(), cursor, cursor-key mode, dump() identical, every Changes.lines of the item's calls empty, no Function dispatched, parser back in Ground; non-trivial = at least one item judged; distinct = (items, final screen)",
             assumptions: vec!["an item is judged only if the parser is in Ground before it and the reference parser agrees it is inert (else counted, not judged)", "pending changed-line flags from earlier feed(char) calls are reported-and-cleared by an empty feed_str before the item", "a run in which avt panics is abandoned (C01's subject)"],
             real: vec!["avt::Vt", "avt::parser::Parser (lock-step)"],
             simulated: vec!["App (inert items)", "Pipe (cuts inside the item)"],
             model: vec!["RefParser (validates the item)"],
-            probes: vec!["resize_right_before_item", "item_osc", "item_dcs", "item_sos_pm_apc", "item_csi", "item_esc", "item_c0_c1", "item_cut_inside"],
-            fault_kinds: vec!["item_cut_inside", "feed_char_calls", "resize_events"],
+            probes: vec!["resize_right_before_item", "item_osc", "item_dcs", "item_sos_pm_apc", "item_csi", "item_esc", "item_c0_c1", "item_cut_inside", "item_through_feed_char"],
+            fault_kinds: vec!["item_cut_inside", "item_through_feed_char", "feed_char_calls", "resize_events"],
         }
     }
 }
